@@ -140,7 +140,9 @@ impl NetcodeServer {
             connect_key,
             max_clients: config.max_clients,
             challenge_sequence: 0,
-            global_sequence: 0,
+            // Handshake replies are sealed with the client's server-to-client key before the
+            // connection's own sequence (starting at 0) is in use, keep both nonce ranges disjoint.
+            global_sequence: 1 << 63,
             challenge_key,
             public_addresses: config.public_addresses,
             current_time: config.current_time,
